@@ -16,6 +16,7 @@ one that raised left its inputs untouched and a retry succeeds).
 import copy
 import errno
 import io
+import json
 import os
 import pickle
 import shutil
@@ -631,6 +632,11 @@ def gen_run(r, cfg):
                 pf.append(fop)
             extra.append({"k": "post_edit", "edit": {"k": "modify", "sym": base, "value": r.choice([5.0, 0.2, 11.0])},
                           "follows": pf, "again": route in ("pickle", "pickle_nested", "json")})
+    if route != "savetxt" and rt["chaos"] not in ("fresh_process", "new_interpreter") and r.random() < cfg.get("p_decoy", 0.0):
+        # the session loads something else as well: data of another registry that defines the same symbols differently
+        extra.append({"k": "decoy", "when": r.choice(["before", "before", "after"]), "keep": r.random() < 0.7,
+                      "route": r.choice(["pickle", "pickle", "json", "deepcopy"]), "proto": r.choice([2, 3, 4, 5]),
+                      "n": r.choice([1, 1, 2, 5]), "factor": r.choice([7.0, 0.5])})
     if route != "savetxt" and rt["chaos"] not in ("fresh_process", "new_interpreter") and r.random() < cfg.get("p_gen2", 0.0):
         # a second generation: the restored object is persisted and restored once more (pickle of an unpickled
         # object, deep copy of a copy, JSON of a registry that came out of a pickle ...)
@@ -662,6 +668,7 @@ def make_config(rng):
         "p_pre": r.choice([0.0, 0.3]),
         "p_post": r.choice([0.0, 0.25, 0.5]),
         "p_gen2": r.choice([0.0, 0.0, 0.3, 0.6]),
+        "p_decoy": r.choice([0.0, 0.2, 0.5]),
         "p_newint": 0.3 if os.environ.get("UNYTSIM_TIER") == "thorough" else 0.04,
     }
 
@@ -847,6 +854,10 @@ class Sim11:
                 self.check_o2(fop, orig_out[i], res["follows"][i], chaos)
             self.log.add({"o1": res["o1"], "follows": res["follows"], "orig": orig_out})
             return
+        decoy = next((o for o in ops if o["k"] == "decoy"), None)
+        kept = []
+        if decoy is not None and decoy.get("when") == "before":
+            kept.append(self.load_decoy(regop, decoy))
         try:
             robj, rreg = restore(payload, obj, reg, None)
         except Exception as e:
@@ -854,6 +865,9 @@ class Sim11:
                 raise
             self.violate("O1-restore-raised", {"route": rt, "build": build, "exception": type(e).__name__}, [route, type(e).__name__])
             return
+        if decoy is not None and decoy.get("when") != "before":
+            kept.append(self.load_decoy(regop, decoy))
+        self._kept = kept  # what the session still holds on to
         rest = Lineage(robj, rreg)
         self.usys_names = (reg.unit_system.name, rreg.unit_system.name)
         after = o1_describe(robj, rreg)
@@ -968,6 +982,31 @@ class Sim11:
                                       "note": "same bytes restored twice in one process, the first restored registry "
                                               "edited in between"}, [route, ",".join(sorted(set(x.split(".")[-1] for x in d2)))[:60]])
         self.log.add({"o1": after, "follows": outs})
+
+    def load_decoy(self, regop, decoy):
+        """Something else the session loads (and, if `keep`, holds on to): an array of ANOTHER registry that defines
+        the same custom symbols differently, through the same kind of route."""
+        unyt, uo, ur = _m()
+        op2 = json.loads(json.dumps(regop))
+        for e in op2.get("edits", []):
+            if e["k"] == "add" and isinstance(e.get("scale"), float):
+                e["scale"] = e["scale"] * decoy.get("factor", 7.0)
+        if op2.get("route") in (None, "default"):
+            op2 = {"route": "plain", "edits": [{"k": "add", "sym": "code_length", "scale": 11.0, "dims": "length", "prefixable": True}]}
+        reg2 = build_registry(op2)
+        names = [e["sym"] for e in op2.get("edits", []) if e["k"] == "add"]
+        a = unyt.unyt_array(np.array([1.0, 2.0]), names[0] if names and names[0] in reg2.lut else "m", registry=reg2)
+        out = []
+        for _ in range(decoy.get("n", 1)):
+            if decoy.get("route") == "json":
+                r2 = ur.UnitRegistry.from_json(reg2.to_json())
+                out.append(unyt.unyt_array(np.array([1.0, 2.0]), str(a.units), registry=r2))
+            elif decoy.get("route") == "deepcopy":
+                out.append(copy.deepcopy(a))
+            else:
+                out.append(pickle.loads(pickle.dumps(a, protocol=decoy.get("proto", 4))))
+        self.fault("decoy_load_" + decoy.get("route", "pickle"))
+        return out if decoy.get("keep", True) else None
 
     def check_identity_and_hash(self, obj, reg, robj, rreg, label, same):
         unyt, uo, ur = _m()
